@@ -74,7 +74,6 @@ def case_strategy(draw, est):
     if est == "MultiTaskLasso":
         T = draw(st.integers(1, 3))
         case["y"] = [[draw(gen.real(-1, 0)) + i % 2 for _ in range(T)] for i in range(n)]
-        case["storage"] = "dense"
     if est in ("SparseLogisticRegression", "LinearSVC"):
         case["y"] = draw(gen.planted_sign_target(X))
         if est == "LinearSVC":
